@@ -364,6 +364,10 @@ void nl_string_shrink_to_fit(nl_string_t *str) {
     if (!str || str->capacity == str->length) return;
     
     size_t new_capacity = str->length + (str->null_terminated ? 1 : 0);
+    /* realloc(ptr, 0) frees ptr and returns NULL: str->data would dangle
+     * and nl_string_free() would free it a second time */
+    if (new_capacity == 0) new_capacity = 1;
+    if (new_capacity == str->capacity) return;
     char *new_data = realloc(str->data, new_capacity);
     if (!new_data) return;
     
